@@ -79,7 +79,7 @@ SCALARS = {
     'unsigned long long': 'unsigned long long', 'long long': 'long long', 'signed char': 'signed char',
     'float': 'float', 'double': 'double', 'time_t': 'long', 'uintptr_t': 'uintptr_t', 'intptr_t': 'intptr_t',
     'ptrdiff_t': 'ptrdiff_t', 'std::ptrdiff_t': 'ptrdiff_t', 'off_t': 'long', 'pid_t': 'int', 'socklen_t': 'unsigned int',
-    'iovec': 'struct iovec', 'timezone': 'struct timezone', 'tm': 'struct tm', 'epoll_event': 'struct epoll_event', 'timeval': 'struct timeval', 'timespec': 'struct timespec',
+    'iovec': 'struct iovec', 'timezone': 'struct timezone', 'tm': 'struct tm', 'epoll_event': 'struct epoll_event', 'fd_set': 'fd_set', '__fd_mask': 'long', 'timeval': 'struct timeval', 'timespec': 'struct timespec',
     '__uint8_t': 'uint8_t', '__uint16_t': 'uint16_t', '__uint32_t': 'uint32_t', '__uint64_t': 'uint64_t',
 }
 INT_RANGE = {
@@ -1683,6 +1683,12 @@ class Unit:
             return
         txt, is_ref = self.decl_text(v, name)
         self.local_names[v['id']] = (name, is_ref); self.local_decls[v['id']] = v
+        hl = self.spec.get(('hoist_locals', self.cur)) or ()
+        ks = self.kids(v)
+        if name in hl and (not ks or (self.strip_tmp(ks[0])['kind'] == 'CXXConstructExpr' and not self.kids(self.strip_tmp(ks[0])))) and hasattr(self, 'hoisted'):
+            # an uninitialised (trivially constructed) local declared at function scope instead of inside a loop body: nothing observable
+            # changes; dfcc loses track of address-taken locals declared in a contracted loop body that is left by break (measured)
+            self.used_keys.add(('hoist_locals', self.cur)); self.hoisted.append('%s;' % txt); return
         mvla = re.match(r'^(.*) (\w+)\[([^\[\]]*[A-Za-z_][^\[\]]*)\]$', txt)
         if mvla and self.spec.get(('vla_as_heap', self.cur)):
             # variable-length array printed as a dynamic object of exactly that many elements, released at scope exit
@@ -1696,7 +1702,7 @@ class Unit:
         if self.models and self.models.is_model_type(ct) and not is_ref and '*' not in ct:
             self.models.local_object(self, v, ct, name, ks, p)
             return
-        SYS = ('struct iovec', 'struct timeval', 'struct timespec', 'struct timezone', 'struct tm', 'struct epoll_event')
+        SYS = ('struct iovec', 'struct timeval', 'struct timespec', 'struct timezone', 'struct tm', 'struct epoll_event', 'fd_set')
         if ct.startswith('struct ') and not ct.strip().endswith('*') and not is_ref and '[' not in txt and ct not in SYS:
             rec = ct[len('struct '):].strip()
             ce = self.strip_tmp(ks[0]) if ks else None
